@@ -261,6 +261,7 @@ func RunLM(t *testing.T, c *LMCase, prop string, trace bool) *work.RunOut {
 				ro.Probes["flushes"]++
 			case "compact":
 				before := lm.Tables()
+				realBefore := realAnswers(lm, queryKeys, c.Watermark, c.MaxTs+1)
 				lm.Compact()
 				after := lm.Tables()
 				if len(before) != len(after) || tablesDiffer(before, after) {
@@ -292,6 +293,20 @@ func RunLM(t *testing.T, c *LMCase, prop string, trace bool) *work.RunOut {
 							if b.get() != a2.get() {
 								add("compaction", "answer-changed", fmt.Sprintf("compaction (action %d, watermark %d) changed the answer for %q at ts %d: before %s (version %d), after %s (version %d)", ai, c.Watermark, k, ts, b.get(), b.version, a2.get(), a2.version))
 							}
+						}
+					}
+					// ... also as the engine's own lookup sees it (a compaction output that
+					// holds the right entries in the wrong order answers differently); only
+					// where the lookup was right before, so that a lookup defect stays C10's
+					realAfter := realAnswers(lm, queryKeys, c.Watermark, c.MaxTs+1)
+					i := 0
+					for _, k := range queryKeys {
+						for ts := c.Watermark; ts <= c.MaxTs+1; ts++ {
+							evals++
+							if rb, ra := realBefore[i], realAfter[i]; rb == bruteForce(before, k, ts).get() && ra != rb {
+								add("compaction", "lookup-answer-changed", fmt.Sprintf("compaction (action %d, watermark %d) changed what the engine's lookup answers for %q at ts %d: before %s, after %s", ai, c.Watermark, k, ts, rb, ra))
+							}
+							i++
 						}
 					}
 				}
@@ -355,6 +370,23 @@ func RunLM(t *testing.T, c *LMCase, prop string, trace bool) *work.RunOut {
 	ro.Nontrivial = ro.Probes["flushes"] > 0 && (prop == "C10" || ro.Probes["compactions_that_changed_tables"] > 0)
 	ro.Sample = map[string]any{"case": c, "oracle": "C10: real lookup == brute force over decoded tables for every (key, ts); C09: Get-level answers for ts >= watermark unchanged by every compaction and equal to those of everything flushed"}
 	return ro
+}
+
+// realAnswers: the Get-level answer of the engine's own table lookup for every
+// (key, ts) with watermark <= ts <= maxTs, in a fixed order.
+func realAnswers(lm *originium.VerifLM, keys []string, watermark, maxTs uint64) []string {
+	var res []string
+	for _, k := range keys {
+		for ts := watermark; ts <= maxTs; ts++ {
+			e, ok := lm.Lookup(types.KeyWithTs(k, ts))
+			if !ok || e.Tombstone {
+				res = append(res, "<not found>")
+			} else {
+				res = append(res, "value:"+string(e.Value))
+			}
+		}
+	}
+	return res
 }
 
 func tablesDiffer(a, b []originium.VerifTable) bool {
